@@ -58,6 +58,7 @@ type Check struct {
 	Quick       TierCfg  `json:"quick"`
 	Thorough    TierCfg  `json:"thorough"`
 	MinBudget   int      `json:"min_budget"` // max replays spent minimising one signature
+	Prebuild    []string `json:"prebuild"`   // packages of the repository (e.g. ./cmd/basm) built, uninstrumented, into <work>/bin/<name> before the copy is instrumented: harnesses run them as fresh processes
 	SoloRuns    int      `json:"solo_runs"`  // runs re-executed alone in a fresh process; their Extra["solo_digest"] must equal what they reported inside their batch
 	Also        []string `json:"also"`       // further check configurations (ids in checks.json) that belong to the same property: run after the main one, reported under this id, coverage merged
 }
@@ -202,6 +203,12 @@ func build(c *Check, work string) (string, json.RawMessage) {
 	}
 	if out, err := runCmd("/", env, "rsync", "-a", "--delete", "--exclude", ".git", repoDir+"/", src+"/"); err != nil {
 		die(2, "copy /repo: %v\n%s", err, out)
+	}
+	for _, pkg := range c.Prebuild {
+		outBin := filepath.Join(work, "bin", filepath.Base(pkg))
+		if out, err := runCmd(src, env, goRoot+"/bin/go", "build", "-o", outBin, pkg); err != nil {
+			die(2, "building %s from /repo's working tree failed: %v\n%s", pkg, err, out)
+		}
 	}
 	var census json.RawMessage
 	if !c.NoSimgen {
